@@ -45,6 +45,12 @@ inline std::string result_json(const std::string &extra = "") {
     o << (f ? "" : ",") << h;
     f = false;
   }
+  o << "],\"branch_atoms\":[";
+  f = true;
+  for (auto h : S.branch_atoms) {
+    o << (f ? "" : ",") << h;
+    f = false;
+  }
   o << "],\"violations\":[";
   f = true;
   for (auto &v : S.violations) {
